@@ -1,5 +1,5 @@
 """Which units (TU x configuration x dispatch path x flavour) each property analyses per tier."""
-from .facts import zoo_units, Unit, REPO, CONFIGS
+from .facts import zoo_units, Unit, REPO, CONFIGS, VERIF
 import glob, os
 
 
@@ -41,7 +41,18 @@ QUICK = {
 }
 
 
+def rng_units():
+    return [Unit("rng", os.path.join(VERIF, "witness", "rng.cpp"), "utility", True, patterns=False),
+            Unit("refrng", os.path.join(VERIF, "ref", "ref_rng.cpp"), "none", False, roots=os.path.join(VERIF, "ref"), patterns=False)]
+
+
 def plan(prop, tier):
+    if prop == "C20":
+        us = rng_units()
+        if tier == "thorough":
+            us += [Unit("rng", os.path.join(VERIF, "witness", "rng.cpp"), "utility", True, flavour="development"),
+                   Unit("rng", os.path.join(VERIF, "witness", "rng.cpp"), "all", False), Unit("rng", os.path.join(VERIF, "witness", "rng.cpp"), "utility", True, std="gnu++11")]
+        return us
     if tier == "quick":
         return QUICK.get(prop, QUICK_DEFAULT)()
     return THOROUGH_DEFAULT()
